@@ -9,6 +9,7 @@ extern "C" void vp_dealloc_elem(void* p, unsigned long bytes);
 extern "C" void* vp_alloc_tab(unsigned long bytes);                     // long segment table
 extern "C" void vp_dealloc_tab(void* p, unsigned long bytes);
 extern "C" void vp_constructed(void* addr, int val);
+extern "C" void vp_destroyed(void* addr);
 extern "C" void vp_ret(int tid, unsigned long index, void* addr);      // a growth call returned iterator (index, &*it)
 extern "C" void vp_gtal_done(int tid, unsigned long n);                 // grow_to_at_least(n) returned
 extern "C" void vp_sample(int tid, unsigned long index, void* addr);    // address of an existing element seen by a thread
@@ -28,6 +29,7 @@ struct Elem {
   Elem(int x, quiet) : v(x) {}                                   // prototype value, not an element of the vector
   Elem(const Elem& o) : v(o.v) { vp_constructed(this, v); }      // every element construction inside the vector
   Elem() : v(-1) { vp_constructed(this, -1); }
+  ~Elem() { vp_destroyed(this); }
 };
 using V = tbb::concurrent_vector<Elem, vp_allocator<Elem>>;
 using B = V::base_type;
@@ -68,6 +70,13 @@ void vp_thr_gtal(V* v, int tid, unsigned long n, unsigned long probe) {
   vp_ret(tid, it.my_index, nullptr);
   if (probe != ~0ul) vp_sample(tid, probe, &(*v)[probe]);
 }
+}
+// ---- sequential operation (seq units): op t of a concrete operation sequence, same observers as the thread bodies
+extern "C" void vp_seq_op(V* v, int t, int kind, unsigned long arg) {
+  Elem proto(100 + t, Elem::quiet{});
+  if (kind == 0) { auto it = v->grow_by(arg, proto); vp_ret(t, it.my_index, arg ? (void*)&*it : nullptr); }
+  else if (kind == 1) { auto it = v->push_back(proto); vp_ret(t, it.my_index, (void*)&*it); }
+  else { auto it = v->grow_to_at_least(arg, proto); vp_gtal_done(t, arg); vp_ret(t, it.my_index, nullptr); }
 }
 extern "C" unsigned vp_seg_allocated(V* v, unsigned long i) {   // is the segment holding index i published (non-null, not the failure tag)?
   auto table = v->my_segment_table.load(std::memory_order_relaxed);
